@@ -10,17 +10,17 @@ VERIF = os.path.dirname(os.path.dirname(os.path.abspath(__file__)))
 T = {
  "C01": dict(
   technique="property-based testing (Hypothesis grammar of definitions) + corpus sweep + coverage-guided stage (atheris/libFuzzer driving the same strategy) against a reference acceptor",
-  text="Generated search: block-structured definitions of fragment F and the 63 corpus definitions are executed by a reference semantics into job sets, the real learner is run under a step-bound watchdog and every input job is checked for membership in the emitted diagram with a backtracking reference acceptor. Evidence of absence only up to the generated sizes; families of genuine defects are excluded by input predicates listed in known_findings.json.",
+  text="Generated search: block-structured definitions of fragment F, the 63 corpus definitions and four families enumerated completely on every run (1000 loop/break shapes, 320 nested-fork shapes, break-branch shapes, all partial views of four small plain OR forks) are executed by a reference semantics into job sets, the real learner is run under a step-bound watchdog and every input job is checked for membership in the emitted diagram with a backtracking reference acceptor; a coverage-guided stage (atheris) drives the same strategy. Evidence of absence only up to the generated sizes; families of genuine defects are excluded by input predicates listed in known_findings.json.",
   note="Trusted: vlib/pumlsem.py (reference semantics, self-tested against the corpus), the janus stand-in shim/test_event_generator (validated by upstream tests), monkeypatched uuid4 for replayability.",
   ref="5 C01, 6"),
  "C02": dict(
   technique="property-based testing, bounded language inclusion against the source definition (reference enumerator + acceptor)",
-  text="For generated definitions with their complete execution set (loops once and twice) every job of the emitted diagram (loops <=2, capped/sampled above 3000) is tested for membership in the source definition.",
+  text="For generated definitions, the corpus and the enumerated loop/fork/break-branch shape families with their complete execution set (loops once and twice) every job of the emitted diagram (loops <=2, capped/sampled above 3000) is tested for membership in the source definition.",
   note="Trusted: vlib/pumlsem.py enumerator and acceptor; language inclusion is bounded at two loop iterations.",
   ref="5 C02, 6"),
  "C03": dict(
   technique="metamorphic property-based testing across presentations, schedule seeds and interpreter hash seeds",
-  text="Each drawn job set is learned twice - original presentation and a drawn permutation/renaming/duplication, different schedule seeds, worker processes started with different PYTHONHASHSEED - and the two outcomes must be of the same kind, over the same events, with equal models and mutually accepting diagrams.",
+  text="Each drawn job set (incl. branch-count job sets) is learned twice - original presentation and a drawn permutation/renaming/duplication, different schedule seeds - and paired shards repeat the same cases under different PYTHONHASHSEED values (16 seeds; every corpus definition under all of them); outcomes must be of the same kind, over the same events, with equal models and mutually accepting diagrams.",
   note="Trusted: reference acceptor; container order is driven through the patched uuid4, hash seeds are sampled (8 values).",
   ref="5 C03"),
  "C04": dict(
@@ -30,7 +30,7 @@ T = {
   ref="5 C04"),
  "C05": dict(
   technique="property-based testing + coverage-guided stage (atheris/libFuzzer driving the same strategy) with a strict validator of the emitted dialect",
-  text="Every emitted text for generated/corpus job sets is parsed by an unforgiving stack-discipline validator and its event names compared with the input types; placeholders must not leak.",
+  text="Every emitted text for generated/corpus job sets and the enumerated loop/fork/break-branch shape families is parsed by an unforgiving stack-discipline validator and its event names compared with the input types; placeholders must not leak.",
   note="Trusted: the strict validator (vlib/pumlstrict.py).",
   ref="5 C05"),
  "C06": dict(
@@ -40,7 +40,7 @@ T = {
   ref="5 C06"),
  "C07": dict(
   technique="property-based testing of structural invariants of detect_loops on generated looping definitions",
-  text="Generated looping definitions (nested, breaks, forks inside) and the corpus loop cases are ingested and passed through detect_loops; the result and every sub graph must be acyclic, single-entry, contain each event type exactly once, and enclose every cyclic edge.",
+  text="Generated looping definitions (nested, breaks, forks inside), the corpus loop cases and the enumerated loop-shape and break-branch-shape families are ingested and passed through detect_loops; the result and every sub graph must be acyclic, single-entry, contain each event type exactly once, and enclose every cyclic edge.",
   note="Trusted: networkx for cycle/SCC computation on the input directly-follows graph.",
   ref="5 C07"),
  "C08": dict(
